@@ -80,6 +80,7 @@ def run(ck):
     impl, model, _ = lib.run_cases(send, "C01", runner_args=["--known"])
 
     direct_failed = set()
+    reported_machinery = set()
     evals = 0
     nontrivial = set()
     suppressed = 0
@@ -100,6 +101,17 @@ def run(ck):
                 # scope predicate is merely conservative
                 ks = sorted(k for k in classes.get(sw, []) if k in (13, 16, 17))
                 ck.count("outside_scope:sw%d:%s" % (sw, "class_" + "_".join("D%d" % k for k in ks) if ks else "conservative"))
+                # scope_complete (Properties/C01_outside.v): a rule as loaded outside the three classifiers is
+                # inside the scope.  The runner evaluates both predicates: they must agree with the theorem.
+                if not ks and "optimised: true" not in c["rule"] and '"optimised": true' not in c["rule"]:
+                    ck.count("scope_and_classifiers_contradict_scope_complete")
+                    if "scope_complete" not in reported_machinery:
+                        reported_machinery.add("scope_complete")
+                        ck.violation({"property": "C01", "kind": "correspondence",
+                                      "what": "the extracted runner puts a loaded rule outside the scope although no classifier of D13/D16/D17 "
+                                              "accepts it: this contradicts the theorem scope_complete, so the runner no longer computes "
+                                              "the predicates the theorems are about",
+                                      "rule": c["rule"], "switch_set": sw, "model": model[c["id"]][-300:]}, no_input=True)
         line_a = common.strip_extra(impl[c["id"]])
         line_b = common.strip_known(model[c["id"]])
         agrees = (line_a == line_b) or (common.lines_agree(line_a, line_b) is True)
